@@ -492,8 +492,9 @@ class Normaliser(object):
             if isinstance(tgt, ast.Name) and isinstance(rv, ast.Name):
                 pairs = [(tgt.id, rv.id)]
             elif isinstance(tgt, ast.Tuple) and isinstance(rv, ast.Tuple) and len(tgt.elts) == len(rv.elts) and \
-                    all(isinstance(x, ast.Name) for x in tgt.elts + rv.elts):
-                pairs = [(a.id, b.id) for a, b in zip(tgt.elts, rv.elts)]
+                    all(isinstance(x, ast.Name) for x in tgt.elts):
+                # element-wise: a returned name that goes into the identically named target may keep its name
+                pairs = [(a.id, b.id) for a, b in zip(tgt.elts, rv.elts) if isinstance(b, ast.Name) and a.id == b.id]
             handler_reads = set()
             for t in enclosing_trys:
                 for part in list(t.handlers) + list(t.finalbody):
@@ -549,6 +550,21 @@ class Normaliser(object):
         except Unstructurable as ex:
             self.skipped.append((h.fn.name, caller_fn.name, str(ex)))
             return None
+        # `a, b = (x, y)` -> `a = x; b = y` when no target is read by a later element
+        flat = []
+        for s_ in out:
+            if isinstance(s_, ast.Assign) and len(s_.targets) == 1 and isinstance(s_.targets[0], ast.Tuple) and isinstance(s_.value, ast.Tuple) and \
+                    len(s_.targets[0].elts) == len(s_.value.elts) and all(isinstance(t, ast.Name) for t in s_.targets[0].elts):
+                tn = [t.id for t in s_.targets[0].elts]
+                eff = [t_ for t_, v_ in zip(tn, s_.value.elts) if not (isinstance(v_, ast.Name) and v_.id == t_)]     # `x = x` writes nothing
+                safe = all(not ({x.id for x in ast.walk(v) if isinstance(x, ast.Name)} & (set(tn[:i]) & set(eff)))
+                           for i, v in enumerate(s_.value.elts))
+                if safe:
+                    for t, v in zip(s_.targets[0].elts, s_.value.elts):
+                        flat.append(ast.copy_location(ast.Assign(targets=[t], value=v), s_))
+                    continue
+            flat.append(s_)
+        out = flat
         # drop `x = x`
         out = [s for s in out if not (isinstance(s, ast.Assign) and len(s.targets) == 1 and _same_load(s.targets[0], s.value))]
         out = pre + out
@@ -642,6 +658,17 @@ class Normaliser(object):
             rep = None
             form = None
             call = None
+            # `return a if c else self._h(..)`: back to a statement so that the helper call can be inlined in its branch
+            if caller_fn is not None and isinstance(s, (ast.Return, ast.Assign)) and isinstance(s.value, ast.IfExp) and \
+                    any(self._match(c_, mn, cls) is not None for br in (s.value.body, s.value.orelse) for c_ in ast.walk(br)
+                        if isinstance(c_, ast.Call)):
+                def arm(v):
+                    n_ = copy.copy(s)
+                    n_.value = v
+                    return n_
+                queue.insert(0, ast.copy_location(ast.If(test=s.value.test, body=[arm(s.value.body)], orelse=[arm(s.value.orelse)]), s))
+                self.changed = True
+                continue
             if isinstance(s, ast.Expr) and isinstance(s.value, ast.Call):
                 form, call = 'expr', s.value
             elif isinstance(s, ast.Assign) and len(s.targets) == 1 and isinstance(s.value, ast.Call):
